@@ -383,10 +383,12 @@ def oracle_query(st, op, r):
                 if x is None or not ina(x):
                     if y is not None:
                         bad.append(("filter-lets-through", (i, x), "step %d: %r is not in key %d of the inner PFilterByKey, yet the chain gave %r" % (i, x, i, y)))
+                elif y is None:
+                    bad.append(("filter-drops-in-key", (i, x), "step %d: %r is in key %d of the inner PFilterByKey, yet the chain gave a rest" % (i, x, i)))
                 else:
                     e = judge_nearest(inb, x, y, "step %d: PNearestNoteInKey" % i)
                     if e:
-                        bad.append(("snap-" + e[0], (i, x), e[2]))
+                        bad.append(("snap-" + e[0].replace("nearest-", ""), (i, x), e[2]))
                 continue
             kd = st.key_at(op["keys"], i)
             if kd is None or not kd["judged"]:
@@ -524,10 +526,48 @@ def session_script(ops, upto):
     return "\n".join(L)
 
 
+def bad_at(ops, res, oi):
+    """oracle failures of the query at index oi of an executed history"""
+    st = SessionState()
+    for o in ops[:oi]:
+        st.apply(o)
+    return oracle_query(st, ops[oi], res[oi]), st
+
+
+def shrink_history(run, ops, oi, kind):
+    """a shorter history ending in the same query that still fails the oracle in the same way: first without
+    the earlier queries and without the keys the query does not use, then only without the earlier queries"""
+    target = ops[oi]
+    conf = [o for o in ops[:oi] if o["op"] != "q"]
+    used = set()
+    for spec in (target.get("keys"), target.get("keys2")):
+        if spec:
+            used.update([spec["const"]] if "const" in spec else spec["seq"])
+    if "slot" in target:
+        used.add(target["slot"])
+    kept = [o for o in conf if o["op"] == "scale" or o["slot"] in used]
+    sids = {o["scale"] for o in kept if o["op"] in ("key", "rescale")}
+    kept = [o for o in kept if o["op"] != "scale" or o["id"] in sids]
+    for cand in (kept + [target], conf + [target]):
+        if len(cand) >= oi + 1:
+            continue
+        try:
+            res = run.impl("c13_impl", {"sessions": [{"ops": cand}]})["sessions"][0]
+        except Exception:
+            continue
+        if isinstance(res, list) and len(res) == len(cand):
+            bad, _ = bad_at(cand, res, len(cand) - 1)
+            hit = [b for b in bad if b[0] == kind]
+            if hit:
+                return cand, res[-1], hit[0]
+    return None
+
+
 def judge_sessions(run, sessions, outs):
     """oracle + model comparison of executed sessions.  Returns the number of oracle failures."""
     header = HEADER
     terms, meta, n_bad = [], [], 0
+    reported = run.__dict__.setdefault("_c13_reported", set())   # one shrunk replay per (kind, site) and run
     for si, (sess, res) in enumerate(zip(sessions, outs)):
         sname = "sess%d" % si
         st = SessionState()
@@ -552,12 +592,24 @@ def judge_sessions(run, sessions, outs):
                     continue
                 seen.add(kind)
                 n_bad += 1
-                defs = {"k%d" % sl: {a: b for a, b in d.items()} for sl, d in sorted(st.keys.items())}
+                if (kind, site) in reported:
+                    continue
+                reported.add((kind, site))
+                h_ops, h_oi, h_r = ops[:oi + 1], oi, r
+                small = shrink_history(run, ops, oi, kind)
+                if small:
+                    h_ops, h_r, (_, x, detail) = small[0], small[1], small[2]
+                    h_oi = len(h_ops) - 1
+                defs = SessionState()
+                for o in h_ops[:h_oi]:
+                    defs.apply(o)
                 run.violation({"kind": kind, "site": site, "history": "session"}, {
-                    "case": {"session": {"ops": ops[:oi + 1]}, "op_index": oi, "query": op, "input": x,
-                             "keys_at_that_moment": defs},
-                    "observed": detail, "returned": r, "oracle": "pitch-class-set oracle on the key's own semitones (step i against key i)",
-                    "python": session_script(ops, oi),
+                    "case": {"session": {"ops": h_ops}, "op_index": h_oi, "query": op, "input": x,
+                             "keys_at_that_moment": {"k%d" % sl: d for sl, d in sorted(defs.keys.items())},
+                             "scales": {"s%d" % i: d for i, d in sorted(defs.scales.items())},
+                             "history_shrunk": bool(small), "original_history_ops": oi + 1},
+                    "observed": detail, "returned": h_r, "oracle": "pitch-class-set oracle on the key's own semitones (step i against key i)",
+                    "python": session_script(h_ops, h_oi),
                     "all_failures_of_this_kind_in_this_query": sum(1 for b in bad if b[0] == kind)})
             t = query_term(op, r, sname, j)
             terms.append(t if t is not None else "false")
@@ -607,7 +659,8 @@ def run_sessions(run, info, n_sessions):
                 raise CheckError("implementation driver failed on a session: %r" % (r,))
             res[i] = r
     t1 = time.time()
-    judge_sessions(run, sessions, res)
+    for i in range(0, n_sessions, 96):      # the definitions of a batch of sessions go into the header of its Coq files
+        judge_sessions(run, sessions[i:i + 96], res[i:i + 96])
     run.cov["sessions_wall_s"] = {"implementation": round(t1 - t0, 1), "oracle+model": round(time.time() - t1, 1)}
     run.cov["sessions"] = n_sessions
 
@@ -639,7 +692,7 @@ def check(run):
         run_keys(run, ukeys[i:i + 600], False)
     # 2b. sessions: several keys per process (shared names / tonics / scale objects), re-configuration,
     #     tonal patterns over key progressions with rests
-    run_sessions(run, info, 72 if run.tier == "quick" else 1500)
+    run_sessions(run, info, 72 if run.tier == "quick" else 1000)
     # 3. note names: whole MIDI range and every spelling
     numbers = list(range(-2, 130))
     sp = []
@@ -684,8 +737,31 @@ def check(run):
                        "nearest_note compared by membership and distance, not identity.")
 
 
+def replay_session(run, doc):
+    case = doc["case"]
+    ops, oi = case["session"]["ops"], case["op_index"]
+    res = run.impl("c13_impl", {"sessions": [{"ops": ops}]})["sessions"][0]
+    bad = []
+    if isinstance(res, list) and len(res) == len(ops) and ops[oi]["op"] == "q":
+        bad, _ = bad_at(ops, res, oi)
+        print("replay: query %s returned %r" % (json.dumps(ops[oi]), res[oi]))
+    for b in bad:
+        print("REPLAY-FAILS:", b)
+    if bad:
+        print("VIOLATION property=C13 replay=%s" % "(replayed)")
+        return 1
+    if not doc.get("failing_input_found", True):
+        print("replay: the document records a model/implementation disagreement without a failing input; re-running the whole check")
+        if run.build():
+            check(run)
+        return run.finish()
+    return 0
+
+
 def replay(run, doc):
     case = doc.get("case", {})
+    if "session" in case:
+        return replay_session(run, doc)
     key = case.get("key")
     if isinstance(key, str) and "tonic" in case:
         kd = {"name": key, "tonic": case["tonic"]}
